@@ -559,10 +559,17 @@ def sweep(ctx, full):
         ctx.count("sweep_cases", len(lines) * len(obs_vals))
 
 
+def replay(ctx, obj):
+    """re-run the generation that produced the replay file: every case derives from the recorded seed and tier"""
+    ctx.rng.seed(obj.get("seed", ctx.seed))
+    ctx.tier = obj.get("tier", ctx.tier)
+    run(ctx)
+
+
 def run(ctx):
     corpus(ctx)
     sweep(ctx, full=(ctx.tier == "thorough"))
-    n = ctx.n(200, 4000)
+    n = ctx.n(330, 5000)
     for i in range(n):
         if not ctx.time_left():
             ctx.note(f"time budget reached after {i} generated calls")
